@@ -197,9 +197,12 @@ static void new_conn(const char *state)
     bts->conn.bell_reg_id = 3;
     tcp_opts_init(&bts->conn.tcp_opts);
     have_snap = false; have_applied = false;
-    if (!strcmp(state, "resolving")) {
+    if (!strncmp(state, "resolving", 9)) {
+	/* resolving | resolving-local (the local address's name only) | resolving-local+remote (both names) */
 	bts->conn.state = conn_state_resolving;
-	bts->conn.query = (struct xcm_dns_query *)0x10;
+	if (!strcmp(state, "resolving") || !strcmp(state, "resolving-local+remote")) bts->conn.query = (struct xcm_dns_query *)0x10;
+	else { bts->conn.remote_ips[0].family = AF_INET; bts->conn.remote_ips[0].addr.ip4 = htonl(0x7f000001); bts->conn.num_remote_ips = 1; }
+	if (strcmp(state, "resolving")) bts->conn.local_query = (struct xcm_dns_query *)0x18;
 	bts->conn.tconnect = (struct tconnect *)0x20;
     } else if (!strcmp(state, "connecting")) {
 	bts->conn.state = conn_state_connecting;
@@ -217,12 +220,14 @@ static const char *state_str(void)
     struct btcp_socket *bts = TOBTCP(sock);
     static char buf[64];
     switch (bts->conn.state) {
-    case conn_state_resolving: return "resolving";
+    case conn_state_resolving:
+	if (bts->conn.local_query != NULL) return bts->conn.query != NULL ? "resolving-local+remote" : "resolving-local";
+	return "resolving";
     case conn_state_connecting: return "connecting";
     case conn_state_ready:
 	/* an established connection holds no connect-phase helper (their timer/socket fds would stay in the epoll set) */
 	if (bts->conn.tconnect != NULL) return "ready+tconnect";
-	if (bts->conn.query != NULL) return "ready+query";
+	if (bts->conn.query != NULL || bts->conn.local_query != NULL) return "ready+query";
 	return "ready";
     case conn_state_closed: return "closed";
     case conn_state_bad: snprintf(buf, sizeof(buf), "bad:%s", h_errname(bts->conn.badness_reason)); return buf;
